@@ -1,6 +1,7 @@
 """C16 — WaitGroup / OneShotEvent release every waiter exactly when the count hits zero (DESIGN.md §3 C16)."""
 import os
 
+from vlib import apiprobe
 from vlib import common as C
 from vlib import conc
 from vlib import memsearch
@@ -34,6 +35,7 @@ def run(res, tier):
         'real clocks are replaced by a nondeterministic timeout step (model) / the FIBER virtual clock (harness)',
         'WaitGroup::Reset / OneShotEvent::Reset / Call are documented not thread-safe resp. not used by WaitGroup: not modelled',
     ]
+    apiprobe.stage(res, 'C16', tier)  # every public form of the area still instantiates (vlib/apiprobe.py, harness/api_probe_*.cpp)
     conc.concurrent_check(
         res, 'C16', tier, 'c16.cpp', 'event', RULES,
         quick_args=['--mode', 'dfs', '--pb', '2', '--wb', '1', '--max-exec', '30000'],
@@ -63,5 +65,8 @@ def run(res, tier):
 
 
 def replay(path):
+    r = apiprobe.replay(path)
+    if r is not None:
+        return r
     r = memsearch.replay(path)
     return conc.replay('C16', path) if r is None else r
